@@ -74,6 +74,10 @@ def run(res):
             # the label carries the connection name: a message whose own target is unresolved has no connection (O7) and is not selected
             want = [m for m in r.ctrl.all_messages if getattr(m.obj, 'connection', None) is conn and involves(m)]
             text = '%s: %d%s' % (cname, oid, letters)
+            if rnd.random() < 0.3:
+                # the same label text used in other commands first: what `list LABEL` returns afterwards depends on the label alone
+                r.ctrl.process_command(rnd.choice(['filter wl_region', 'breakpoint wl_display', 'filter wl_registry, wl_compositor', 'filter ! .done']))
+                r.ctrl.process_command(rnd.choice(['filter ', 'breakpoint ', 'matcher ']) + text)
             st = len(r.log)
             r.ctrl.process_command('list ' + text)
             lines = [t for s, t in r.log[st:] if re.match(r'\s*-?\d+\.\d{4} ', t)]
